@@ -538,3 +538,18 @@ def csi_tokens(s, allow_unterminated, acceptable):
             text = text + s[i]
             i += 1
     return (text, seqs)
+
+
+# ---------------------------------------------------------------------------------------------
+# Python's re, as the oracle of C16 (engine twins: the same assumed contract the interpreter uses for re.finditer)
+import re as _re
+
+RE_IGNORECASE = int(_re.IGNORECASE)
+
+
+def re_finditer(pattern, text, flags):
+    return list(_re.finditer(pattern, text, flags))
+
+
+def re_escape(s):
+    return _re.escape(s)
